@@ -220,6 +220,9 @@ impl Stats {
         self.bump("spurious_root_poll", ch.stats.spurious_polls);
         self.bump("batched_wakeups", ch.stats.batched_fires);
         self.bump(&format!("stack:{}", ch.stack), 1);
+        if plan.writer.real_runner {
+            self.bump("history_from_real_runner", 1);
+        }
         // interleaving measure: hash of the input's (kind, scenario) sequence; non-trivial iff
         // two attempts are open at once somewhere in the input or a failure/skip/error occurs
         let mut hsh = core::FNV_INIT;
@@ -277,6 +280,9 @@ impl Stats {
         self.bump("retried_attempt", rh.shape.retried_attempts as u64);
         self.bump("hook_failure", rh.shape.hook_failures as u64);
         self.bump(&format!("reporter:{}", rh.reporter), 1);
+        if plan.writer.real_runner {
+            self.bump("history_from_real_runner", 1);
+        }
         let mut hsh = core::FNV_INIT;
         let mut open = 0u64;
         let mut max_open = 0u64;
@@ -420,6 +426,8 @@ pub fn decorate_for_world_c(prop: &str, plan: &mut Plan) {
     plan.writer.sink_seed = r.next_u64();
     // C13 wrappers are per-event: a third of the runs feed them arbitrary (non-abiding) streams
     plan.writer.verbosity = u8::from(prop == "C13" && r.chance(1, 3));
+    // one run in twelve of C12 takes its history from a real simulated run of runner::Basic
+    plan.writer.real_runner = prop == "C12" && r.chance(1, 12);
 }
 
 pub fn stack_name(prop: &str, plan: &Plan) -> String {
@@ -481,6 +489,8 @@ pub fn decorate_for_world_r(plan: &mut Plan) {
         plan.writer.short_write_pm = *r.pick(&[50u32, 300, 800]);
         plan.writer.eintr_pm = *r.pick(&[0u32, 50, 300]);
     }
+    // one run in twelve takes its history from a real simulated run of runner::Basic
+    plan.writer.real_runner = r.chance(1, 12);
 }
 
 /// Runs one reporter over a synthetic history and evaluates C14.
@@ -508,7 +518,7 @@ pub fn execute_b(prop: &str, plan: &Rc<Plan>) -> Result<Executed, String> {
 /// Runs `plan` in world C and evaluates `prop`'s oracle.
 pub fn execute_c(prop: &str, plan: &Rc<Plan>) -> Result<Executed, String> {
     let which = stack_name(prop, plan);
-    let ch = crate::worldc::run_world_c(plan, &which)?;
+    let ch = if prop == "C12" && plan.writer.real_runner { crate::worldc::run_real_runner_c12(plan)? } else { crate::worldc::run_world_c(plan, &which)? };
     let mut v = Vec::new();
     match prop {
         "C11" => crate::worldc::c11(&ch, &mut v),
